@@ -11,7 +11,8 @@ declare -A FILES=(
 excl=()
 for p in "$@"; do
   lc=$(echo $p | tr A-Z a-z)
-  excl+=(":!harness/props/$lc.py" ":!harness/props/_codec.py" ":!coq/Props/$p.v" ":!docs/$p.md" ":!corpus/$p" ":!evidence/$p.json" ":!selftest/mutants/$p-*" ":!selftest/harmless/$p-*")
+  excl+=(":!harness/props/$lc.py" ":!coq/Props/$p.v" ":!docs/$p.md" ":!corpus/$p" ":!evidence/$p.json" ":!selftest/mutants/$p-*" ":!selftest/harmless/$p-*")
+  if [ "$p" = C01 ] || [ "$p" = C02 ]; then excl+=(":!harness/props/_codec.py"); fi
   for f in ${FILES[$p]}; do excl+=(":!coq/Model/$f.v" ":!coq/Proofs/$f.v"); done
 done
 git add -A -- . "${excl[@]}" >/dev/null 2>&1
